@@ -508,3 +508,74 @@ func TestP_KnownP9(t *testing.T) {
 		c.NonTrivial()
 	})
 }
+
+// TestAssociatedWarmUp: a warm-up rule on resource w that meters the traffic of an associated resource. The envelope is
+// about the associated resource's admitted tokens: w is never admitted while the associated resource has passed T or more
+// in the current statistic window (effective threshold <= T), and is always admitted while it has passed clearly fewer
+// than T/coldFactor in the last two seconds (effective threshold >= T/coldFactor). The rule is loaded before or after the
+// associated resource was first used.
+func TestAssociatedWarmUp(t *testing.T) {
+	hx.Check(t, hx.N{Quick: 3000, Thorough: 30000}, func(t *rapid.T, c *hx.Case) {
+		hx.Reset(hx.Epoch + uint64(rapid.IntRange(0, 999).Draw(t, "t0")))
+		T := rapid.SampledFrom([]float64{1, 2, 3, 5, 10, 20}).Draw(t, "T")
+		cf := uint32(rapid.SampledFrom([]int{0, 2, 3, 5}).Draw(t, "CF"))
+		eff := float64(cf)
+		if cf == 0 {
+			eff = 3
+		}
+		pass := func(res string) bool {
+			e, _ := sentinel.Entry(res)
+			if e != nil {
+				e.Exit()
+			}
+			return e != nil
+		}
+		usedBefore := rapid.Bool().Draw(t, "associatedResourceUsedBeforeTheLoad")
+		var refPasses []uint64 // instants of passes on the associated resource
+		if usedBefore {
+			pass("ref")
+			refPasses = append(refPasses, hx.C.Ms())
+		}
+		r := &flow.Rule{Resource: "w", Threshold: T, TokenCalculateStrategy: flow.WarmUp, ControlBehavior: flow.Reject, WarmUpPeriodSec: uint32(rapid.IntRange(1, 10).Draw(t, "P")), WarmUpColdFactor: cf,
+			RelationStrategy: flow.AssociatedResource, RefResource: "ref"}
+		if _, err := flow.LoadRules([]*flow.Rule{r}); err != nil || len(flow.GetRulesOfResource("w")) != 1 {
+			t.Fatalf("LoadRules: %v", err)
+		}
+		c.Op("T=%v coldFactor=%d associated resource used before the load=%v", T, cf, usedBefore)
+		sawBlock, sawPass := false, false
+		for i, n := 0, rapid.IntRange(1, 25).Draw(t, "steps"); i < n; i++ {
+			hx.C.AddMs(uint64(rapid.SampledFrom([]int{0, 1, 100, 499, 500, 1000, 1500, 5000}).Draw(t, "dt")))
+			k := rapid.IntRange(0, int(2*T)+2).Draw(t, "associatedTraffic")
+			for j := 0; j < k; j++ {
+				if !pass("ref") {
+					t.Fatalf("the associated resource carries no rule but was blocked")
+				}
+				refPasses = append(refPasses, hx.C.Ms())
+			}
+			now := hx.C.Ms()
+			recent := 0
+			for _, p := range refPasses {
+				if p+2000 > now {
+					recent++
+				}
+			}
+			got := pass("w")
+			c.Op("+%dms: %d on the associated resource at this instant (%d in the last 2 s), w admitted=%v", now-hx.Epoch, k, recent, got)
+			if got && float64(k)+1 > T {
+				t.Fatalf("w admitted although its associated resource has passed %d at this very instant and the rule's threshold is %v: the admitted rate the warm-up rule meters exceeds the configured threshold", k, T)
+			}
+			if !got && float64(recent)+1 <= T/eff-0.5 {
+				t.Fatalf("w blocked although its associated resource passed only %d in the last 2 s: the effective threshold is below threshold/coldFactor = %v", recent, T/eff)
+			}
+			if got {
+				sawPass = true
+			} else {
+				sawBlock = true
+			}
+		}
+		if sawBlock && sawPass {
+			c.NonTrivial()
+		}
+		c.ClassIf(!usedBefore, "rule-loaded-before-the-associated-resource-was-ever-used")
+	})
+}
